@@ -89,3 +89,16 @@ func init() {
 		return true
 	})
 }
+
+func init() {
+	regSimple(rtPkg+".Replace", func(fr *frame, args []value) value {
+		name := mustString(args[0], "Replace function name")
+		x := args[1].(iface)
+		if fr.i.findFunc(name) == nil && !strings.HasPrefix(name, "(") {
+			unsupported("Replace: function %s not found in the loaded program", name)
+		}
+		fr.i.stub("callee replaced by a harness stand-in (contract): " + name)
+		fr.i.hostData["replace:"+name] = x.v
+		return true
+	})
+}
